@@ -14,6 +14,7 @@ import (
 	"strings"
 	"sync"
 
+	"verifsim/fmtv2"
 	"verifsim/sim"
 
 	"github.com/buchgr/bazel-remote/v2/cache"
@@ -36,6 +37,9 @@ type Store struct {
 	Down    bool // every request fails before a response
 	GetReqs map[string]int
 	V2      bool // objects under cas.v2/ are cas.v2 blobs
+	// BodyParks: sorted offsets at which every b0 GET body pauses once, so
+	// that other requests - or a kill - can land inside a fetch.
+	BodyParks []int
 }
 
 // BFault is one planned backend fault; it applies to the next request of the
@@ -289,6 +293,9 @@ type cutReader struct {
 	left   int // bytes before the fault (-1: none)
 	err    error
 	closed *bool
+	s      *sim.Sim
+	parks  []int // body offsets at which the stream pauses once (scheduling points inside a fetch)
+	pos    int
 }
 
 func (c *cutReader) Read(p []byte) (int, error) {
@@ -298,7 +305,19 @@ func (c *cutReader) Read(p []byte) (int, error) {
 	if c.left > 0 && len(p) > c.left {
 		p = p[:c.left]
 	}
+	for len(c.parks) > 0 && c.parks[0] < c.pos {
+		c.parks = c.parks[1:]
+	}
+	if len(c.parks) > 0 && c.s != nil {
+		if c.parks[0] == c.pos {
+			c.parks = c.parks[1:]
+			c.s.Park("be-body")
+		} else if len(p) > c.parks[0]-c.pos {
+			p = p[:c.parks[0]-c.pos]
+		}
+	}
 	n, err := c.r.Read(p)
+	c.pos += n
 	if c.left > 0 {
 		c.left -= n
 	}
@@ -362,7 +381,17 @@ func (p *DirectProxy) Get(ctx context.Context, kind cache.EntryKind, hash string
 	}
 	n := st.logicalSizeOf(kind, obj)
 	closed := new(bool)
-	rd := &cutReader{r: bytes.NewReader(obj), left: -1, closed: closed}
+	parks := append([]int(nil), st.BodyParks...)
+	if len(parks) > 0 && kind == cache.CAS && st.V2 {
+		// also pause where a chunk ends: a stream cut there decodes cleanly
+		if h, err := fmtv2.Parse(obj); err == nil {
+			for _, o := range h.Offsets {
+				parks = append(parks, int(o))
+			}
+			sort.Ints(parks)
+		}
+	}
+	rd := &cutReader{r: bytes.NewReader(obj), left: -1, closed: closed, s: st.S, parks: parks}
 	tb := &trackedBody{name: "b0 GET " + shortName(name)}
 	_ = tb
 	switch kindF {
